@@ -26,7 +26,7 @@ from types import SimpleNamespace
 import numpy as np
 
 PROP = 'C12'
-TARGETS = ['T6', 'T7a', 'T7b', 'T7c', 'T7d', 'T7e', 'T7f', 'T7g', 'T7h', 'T7i', 'T7j', 'T7k']
+TARGETS = ['T3', 'T5', 'T6', 'T7a', 'T7b', 'T7c', 'T7d', 'T7e', 'T7f', 'T7g', 'T7h', 'T7i', 'T7j', 'T7k']
 LEAN_MODULES = ['HdVerif.Props.C12']
 MODEL_MODULES = ['HdVerif.Model.TilingJson', 'HdVerif.Model.TilingSlideJson']
 NAMESPACE = 'HdVerif.C12'
